@@ -286,6 +286,10 @@ impl Store {
         page_cache: PageCache,
         updated_pages: impl IntoIterator<Item = (PageId, DirtyPage)> + Send + 'static,
     ) -> anyhow::Result<()> {
+        #[cfg(nomt_verif)]
+        crate::verif_hook::lock_step("store.begin");
+        #[cfg(nomt_verif)]
+        let _verif_end = crate::verif_hook::on_drop("store.end");
         let mut sync = self.sync.lock();
 
         #[cfg(nomt_verif)]
